@@ -18,7 +18,17 @@ impl Drop for Dc {
   }
 }
 
+/// zero-sized, with drop glue
+pub struct Zdc;
+impl Drop for Zdc {
+  fn drop(&mut self) {
+    DROPS.with(|d| d.set(d.get() + 1));
+  }
+}
+
 enum H<A: Allocator + 'static> {
+  ZdcR(RefMut<'static, Zdc, A>),
+  ZdcO(Owned<Zdc, A>),
   Bytes(BytesRefMut<'static, A>),
   BytesO(BytesMut<A>),
   Typed(RefMut<'static, u64, A>),
@@ -39,6 +49,8 @@ impl<A: Allocator> H<A> {
         H::TypedO(h) => h.detach(),
         H::Zst(h) => h.detach(),
         H::ZstO(h) => h.detach(),
+        H::ZdcR(h) => h.detach(),
+        H::ZdcO(h) => h.detach(),
         H::DcR(h) => h.detach(),
         H::DcO(h) => h.detach(),
       }
@@ -89,6 +101,16 @@ fn run_driver<A: ArenaX + Clone>(d: &Value, out: &mut impl Write, workdir: &str)
               ("at", true) if zero => H::ZstO(a.alloc_owned::<()>().unwrap()),
               ("at", false) => H::Typed(a.alloc::<u64>().unwrap()),
               ("at", true) => H::TypedO(a.alloc_owned::<u64>().unwrap()),
+              ("adc", false) if zero => {
+                let mut h = a.alloc::<Zdc>().unwrap();
+                h.write(Zdc);
+                H::ZdcR(h)
+              }
+              ("adc", true) if zero => {
+                let mut h = a.alloc_owned::<Zdc>().unwrap();
+                h.write(Zdc);
+                H::ZdcO(h)
+              }
               ("adc", false) => {
                 let mut h = a.alloc::<Dc>().unwrap();
                 h.write(Dc(7));
